@@ -231,6 +231,9 @@ func genC13(t *rapid.T, tier string) (*World, any) {
 		n = drawInt(t, 1, 3, "nfiles")
 	}
 	ids := []string{"942100", "942110", "942120"}
+	if chance(t, 15, "zero-id") {
+		ids[0] = pick(t, []string{"012345", "000900", "090000"}, "zero-id-v") // six digits are six digits
+	}
 	for i := 0; i < n; i++ {
 		ext := pick(t, []string{"yaml", "yaml", "yml"}, "ext")
 		maxTests := 6
